@@ -323,13 +323,34 @@ def rule_queries_read_only(em, rep, rid):
     rep.minimum('functions on the query path', n, 10)
 
 
+def cli_only_functions(em):
+    """functions of the compiler module that only the command line runs: main() and what is reachable from it but not from
+    the library entries"""
+    comp = em.repo.module('compiler')
+
+    def reach(f):
+        out, stack = [], [f]
+        while stack:
+            g = stack.pop()
+            if g in out:
+                continue
+            out.append(g)
+            for n, cs in em.cg.calls.get(g, ()):
+                stack.extend(c for c in cs if c.module is comp)
+        return out
+    main = comp.functions.get('main')
+    lib = [comp.functions.get(n) for n in ('compile_prolog_from_string', 'compile_prolog_from_file')]
+    lib_reach = {g for e in lib if e is not None for g in reach(e)}
+    return {g for g in (reach(main) if main is not None else [])} - lib_reach
+
+
 def rule_context_not_written(em, rep, rid):
     rep.rule(rid, 'the library half of the compiler never assigns an attribute of the options/context object it is given '
                   '(the default is the CompilerContext class itself, shared by all callers)')
     n = 0
-    cli = {'main', '_set_debug_options'}
+    cli = cli_only_functions(em)
     for f in em.repo.all_functions(('compiler', 'yp_generator', 'yp_prolog_visitor')):
-        if f.name in cli:
+        if f in cli or (f.parent is not None and f.parent in cli):
             continue
         for x in own_nodes_ordered(f.node):
             if isinstance(x, ast.Attribute) and isinstance(x.ctx, (ast.Store, ast.Del)):
